@@ -1,0 +1,198 @@
+//go:build verif
+
+// Contracts for the deductive verifier in /verif (govc). Comment-only.
+// Views are predicates over the concrete implementations; cast(x, "*T") of an interface
+// value is trusted (each interface here has one production implementation).
+
+package queue
+
+//@ # ---- views --------------------------------------------------------------------------------
+//@ predicate Qapp(x Queue) int64 = cast(x, "*queue").appendedSeq.val
+//@ predicate Qack(x Queue) int64 = cast(x, "*queue").acknowledgedSeq.val
+//@ predicate FQqueue(x FanOutQueue) Queue = cast(x, "*fanOutQueue").queue
+//@ predicate CGack(g ConsumerGroup) int64 = cast(g, "*consumerGroup").acknowledgedSeq.val
+//@ predicate CGcons(g ConsumerGroup) int64 = cast(g, "*consumerGroup").consumedSeq.val
+//@ predicate cgOK(f *consumerGroup) bool = f.consumedSeq != nil && f.acknowledgedSeq != nil && f.consumedSeq != f.acknowledgedSeq && f.q != nil && QOK(FQqueue(f.q)) && page.pageOK(f.metaPage) && page.psize(f.metaPage) >= 16
+//@ predicate cgInv(f *consumerGroup) bool = 0 - 1 <= f.acknowledgedSeq.val && f.acknowledgedSeq.val <= f.consumedSeq.val
+//@ predicate cgPersisted(f *consumerGroup) bool = page.get64(page.pbytes(f.metaPage), 0) == uint64(f.consumedSeq.val) && page.get64(page.pbytes(f.metaPage), 8) == uint64(f.acknowledgedSeq.val)
+
+//@ # ---- interface contracts (assumed at call sites, refined by the implementations below) ----
+//@ predicate QOK(x Queue) bool = x != nil && typeis(x, "*queue") && qOK(cast(x, "*queue"))
+//@ func Queue.AppendedSeq
+//@   requires QOK(self)
+//@   ensures result == Qapp(self)
+//@ end
+//@ func Queue.AcknowledgedSeq
+//@   requires QOK(self)
+//@   ensures result == Qack(self)
+//@ end
+//@ func Queue.SetAcknowledgedSeq
+//@   requires QOK(self)
+//@   modifies cast(self, "*queue").acknowledgedSeq.val, cast(cast(self, "*queue").metaPage, "*page.mappedPage").mappedBytes[*]
+//@   ensures (seq > old(Qack(self)) && seq <= Qapp(self)) ==> Qack(self) == seq
+//@   ensures !(seq > old(Qack(self)) && seq <= Qapp(self)) ==> Qack(self) == old(Qack(self))
+//@ end
+//@ func FanOutQueue.Queue
+//@   ensures result == FQqueue(self)
+//@ end
+//@ func ConsumerGroup.AcknowledgedSeq
+//@   requires cast(self, "*consumerGroup").acknowledgedSeq != nil
+//@   ensures result == CGack(self)
+//@ end
+//@ func ConsumerGroup.ConsumedSeq
+//@   requires cast(self, "*consumerGroup").consumedSeq != nil
+//@   ensures result == CGcons(self)
+//@ end
+
+//@ # ---- consumer group (C06) --------------------------------------------------------------------
+//@ lock consumerGroup.lock4headSeq protects consumedSeq.val acknowledgedSeq.val rwrites acknowledgedSeq.val
+//@ func consumerGroup.Queue
+//@   prop C06
+//@   ensures result == f.q
+//@ end
+//@ func consumerGroup.ConsumedSeq
+//@   prop C06
+//@   requires f.consumedSeq != nil
+//@   ensures result == f.consumedSeq.val
+//@ end
+//@ func consumerGroup.AcknowledgedSeq
+//@   prop C06
+//@   requires f.acknowledgedSeq != nil
+//@   ensures result == f.acknowledgedSeq.val
+//@ end
+//@ func consumerGroup.consume
+//@   prop C06
+//@   requires cgOK(f) && cgInv(f) && f.consumedSeq.val <= Qapp(FQqueue(f.q)) && f.consumedSeq.val < 9223372036854775807
+//@   modifies f.consumedSeq.val, cast(f.metaPage, "*page.mappedPage").mappedBytes[*]
+//@   ensures old(f.consumedSeq.val) + 1 <= Qapp(FQqueue(f.q)) ==> (result == old(f.consumedSeq.val) + 1 && f.consumedSeq.val == result)
+//@   ensures old(f.consumedSeq.val) + 1 > Qapp(FQqueue(f.q)) ==> (result == 0 - 1 && f.consumedSeq.val == old(f.consumedSeq.val))
+//@   ensures cgInv(f) && f.consumedSeq.val <= Qapp(FQqueue(f.q))
+//@   ensures result != 0 - 1 ==> page.get64(page.pbytes(f.metaPage), 0) == uint64(f.consumedSeq.val)
+//@ end
+//@ func consumerGroup.Ack
+//@   prop C06
+//@   requires cgOK(f) && cgInv(f)
+//@   modifies f.acknowledgedSeq.val, cast(f.metaPage, "*page.mappedPage").mappedBytes[*]
+//@   ensures (ackSeq >= old(f.acknowledgedSeq.val) && ackSeq <= f.consumedSeq.val) ==> (f.acknowledgedSeq.val == ackSeq && cgPersisted(f))
+//@   ensures !(ackSeq >= old(f.acknowledgedSeq.val) && ackSeq <= f.consumedSeq.val) ==> (f.acknowledgedSeq.val == old(f.acknowledgedSeq.val) && page.pbytes(f.metaPage) == old(page.pbytes(f.metaPage)))
+//@   ensures cgInv(f)
+//@ end
+//@ func consumerGroup.SetConsumedSeq
+//@   prop C06
+//@   requires cgOK(f)
+//@   modifies f.consumedSeq.val, cast(f.metaPage, "*page.mappedPage").mappedBytes[*]
+//@   ensures f.consumedSeq.val == seq && page.get64(page.pbytes(f.metaPage), 0) == uint64(seq)
+//@ end
+//@ func consumerGroup.SetSeq
+//@   prop C06
+//@   requires cgOK(f)
+//@   modifies f.consumedSeq.val, f.acknowledgedSeq.val, cast(f.metaPage, "*page.mappedPage").mappedBytes[*]
+//@   ensures f.consumedSeq.val == seq && f.acknowledgedSeq.val == seq && cgPersisted(f)
+//@ end
+//@ func consumerGroup.Pending
+//@   prop C06
+//@   requires cgOK(f)
+//@   ensures Qapp(FQqueue(f.q)) - f.consumedSeq.val >= 0 ==> result == Qapp(FQqueue(f.q)) - f.consumedSeq.val
+//@   ensures Qapp(FQqueue(f.q)) - f.consumedSeq.val < 0 ==> result == 0
+//@ end
+//@ func consumerGroup.IsEmpty
+//@   prop C06
+//@   requires cgOK(f)
+//@   ensures result == (Qapp(FQqueue(f.q)) <= f.acknowledgedSeq.val)
+//@ end
+
+//@ # ---- queue (C05/C06) ----------------------------------------------------------------------------
+//@ globalinv ErrExceedingMessageSizeLimit != nil && ErrOutOfSequenceRange != nil && ErrMsgNotFound != nil
+//@ lock queue.rwMutex protects appendedSeq.val acknowledgedSeq.val dataPageIndex indexPageIndex messageOffset dataPage indexPage
+//@ predicate qOK(q *queue) bool = q.rwMutex != nil && page.pageOK(q.metaPage) && page.psize(q.metaPage) >= 24 && page.factoryOK(q.indexPageFct) && page.factoryOK(q.dataPageFct) && page.fpsize(q.indexPageFct) == 4194304 && page.fpsize(q.dataPageFct) >= 134217728 && q.indexPageFct != q.dataPageFct
+//@ predicate qMetaPersisted(q *queue) bool = page.get64(page.pbytes(q.metaPage), 0) == uint64(q.appendedSeq.val) && page.get64(page.pbytes(q.metaPage), 8) == uint64(q.acknowledgedSeq.val)
+//@ # index entry of sequence s: (data page id, offset, length), 16 bytes at (s % 262144) * 16 of index page s / 262144
+//@ predicate eDP(q *queue, s int64) int64 = int64(page.get64(page.pbytes(page.fpage(q.indexPageFct, s / 262144)), int((s % 262144) * 16)))
+//@ predicate eOff(q *queue, s int64) int = int(page.get32(page.pbytes(page.fpage(q.indexPageFct, s / 262144)), int((s % 262144) * 16) + 8))
+//@ predicate eLen(q *queue, s int64) int = int(page.get32(page.pbytes(page.fpage(q.indexPageFct, s / 262144)), int((s % 262144) * 16) + 12))
+//@ predicate seqOK(s int64) bool = s >= 0 - 1 && s < 4611686018427387904
+
+//@ func queue.AppendedSeq
+//@   prop C05 C06
+//@   requires qOK(q)
+//@   ensures result == q.appendedSeq.val
+//@ end
+//@ func queue.AcknowledgedSeq
+//@   prop C05 C06
+//@   requires qOK(q)
+//@   ensures result == q.acknowledgedSeq.val
+//@ end
+//@ func queue.SetAcknowledgedSeq
+//@   prop C06
+//@   requires qOK(q)
+//@   modifies q.acknowledgedSeq.val, cast(q.metaPage, "*page.mappedPage").mappedBytes[*]
+//@   ensures (seq > old(q.acknowledgedSeq.val) && seq <= q.appendedSeq.val) ==> (q.acknowledgedSeq.val == seq && page.get64(page.pbytes(q.metaPage), 8) == uint64(seq))
+//@   ensures !(seq > old(q.acknowledgedSeq.val) && seq <= q.appendedSeq.val) ==> (q.acknowledgedSeq.val == old(q.acknowledgedSeq.val) && page.pbytes(q.metaPage) == old(page.pbytes(q.metaPage)))
+//@   ensures q.acknowledgedSeq.val >= old(q.acknowledgedSeq.val)
+//@   ensures old(q.acknowledgedSeq.val) <= q.appendedSeq.val ==> q.acknowledgedSeq.val <= q.appendedSeq.val
+//@ end
+//@ func queue.SetAppendedSeq
+//@   prop C06
+//@   requires qOK(q)
+//@   modifies q.acknowledgedSeq.val, q.appendedSeq.val, cast(q.metaPage, "*page.mappedPage").mappedBytes[*]
+//@   ensures q.appendedSeq.val == seq && q.acknowledgedSeq.val == seq && qMetaPersisted(q)
+//@ end
+//@ func queue.validateSequence
+//@   prop C05
+//@   requires q.rwMutex != nil
+//@   ensures (result == nil) == (sequence <= q.appendedSeq.val && sequence > q.acknowledgedSeq.val)
+//@ end
+//@ func queue.initSequence
+//@   prop C05 C06
+//@   unshared
+//@   requires qOK(q)
+//@   modifies q.appendedSeq.val, q.acknowledgedSeq.val
+//@   ensures qMetaPersisted(q)
+//@ end
+
+//@ # ---- fan-out queue (C06) ----------------------------------------------------------------------
+//@ predicate cgRefOK(g ConsumerGroup) bool = g != nil && typeis(g, "*consumerGroup") && cast(g, "*consumerGroup").acknowledgedSeq != nil && cast(g, "*consumerGroup").consumedSeq != nil
+//@ func fanOutQueue.Queue
+//@   prop C06
+//@   ensures result == fq.queue
+//@ end
+//@ func fanOutQueue.Sync
+//@   prop C06
+//@   requires fq.consumerGroups != nil && QOK(fq.queue) && all(n, "string", has(fq.consumerGroups, n) ==> cgRefOK(fq.consumerGroups[n]))
+//@   modifies cast(fq.queue, "*queue").acknowledgedSeq.val, cast(cast(fq.queue, "*queue").metaPage, "*page.mappedPage").mappedBytes[*]
+//@   ensures Qack(fq.queue) >= old(Qack(fq.queue))
+//@   ensures Qack(fq.queue) == old(Qack(fq.queue)) || (Qack(fq.queue) <= Qapp(fq.queue) && all(n, "string", has(fq.consumerGroups, n) ==> Qack(fq.queue) <= CGack(fq.consumerGroups[n])))
+//@   ensures old(Qack(fq.queue)) <= Qapp(fq.queue) ==> Qack(fq.queue) <= Qapp(fq.queue)
+//@   loop 1 invariant ackSeq <= Qapp(fq.queue) && all(n, "string", (visited(fq.consumerGroups, n) && has(fq.consumerGroups, n)) ==> ackSeq <= CGack(fq.consumerGroups[n]))
+//@ end
+
+//@ # ---- (re)opening a consumer group (C06) ------------------------------------------------------
+//@ # the package-level function variables are test seams; they are assumed to behave like the
+//@ # functions they are initialised with
+//@ func newPageFactoryFunc
+//@   assume
+//@   ensures err == nil ==> (fresh(fct) && page.factoryOK(fct) && page.fpsize(fct) == pageSize && page.fpath(fct) == path)
+//@   ensures err == nil ==> all(id, "int64", page.fhas(fct, id) ==> page.pbytes(page.fpage(fct, id)) == page.page_disk(path, id))
+//@   ensures err != nil ==> fct == nil
+//@ end
+//@ func existFunc
+//@   assume
+//@ end
+//@ func mkDirFunc
+//@   assume
+//@ end
+//@ # hypothesis on the disk: every persisted consumer-group meta page satisfies the invariant
+//@ predicate cgDiskOK() bool = all(p, "string", all(i, "int64", 0 - 1 <= int64(page.get64(page.page_disk(p, i), 8)) && int64(page.get64(page.page_disk(p, i), 8)) <= int64(page.get64(page.page_disk(p, i), 0))))
+//@ func NewConsumerGroup
+//@   prop C06
+//@   unshared
+//@   opaque get64 put64 get32 put32
+//@   uses get_put64 get64_put64_other
+//@   requires q != nil && QOK(FQqueue(q)) && cgDiskOK() && Qack(FQqueue(q)) >= 0 - 1
+//@   modifies *
+//@   ensures[refok] result1 == nil ==> cgRefOK(result0)
+//@   ensures[pers_cons] result1 == nil ==> page.get64(page.pbytes(cast(result0, "*consumerGroup").metaPage), 0) == uint64(CGcons(result0))
+//@   ensures[pers_ack] result1 == nil ==> page.get64(page.pbytes(cast(result0, "*consumerGroup").metaPage), 8) == uint64(CGack(result0))
+//@   ensures[not_below_queue_ack] result1 == nil ==> (CGack(result0) >= Qack(FQqueue(q)) || (CGack(result0) == 0 - 1 && CGcons(result0) == 0 - 1))
+//@   ensures[ack_le_consumed] result1 == nil ==> (0 - 1 <= CGack(result0) && CGack(result0) <= CGcons(result0))
+//@ end
